@@ -350,12 +350,11 @@ def part_units(ctx, bases, table):
     for style, cfg in bases:
         for (name, unit, f, o) in table:
             c1 = dict(cfg)
-            if 'Temperature' in name:
-                # keep the two temperatures well apart: close temperatures make the results ill-conditioned
-                # (exergy ~ dT**2), and the 1e-15 difference between the two spellings would show at 1e-9
-                c1['Reservoir Temperature'] = unit_value(rnd, 'Reservoir Temperature')
-                c1['Rejection Temperature'] = unit_value(rnd, 'Rejection Temperature')
-            else:
+            # keep the two temperatures well apart in every pair: close temperatures make the results ill-conditioned
+            # (exergy ~ dT**2) and the 1e-12 difference between the two spellings of a quantity would show at 1e-9
+            c1['Reservoir Temperature'] = unit_value(rnd, 'Reservoir Temperature')
+            c1['Rejection Temperature'] = unit_value(rnd, 'Rejection Temperature')
+            if 'Temperature' not in name:
                 c1[name] = unit_value(rnd, name, unit)
             vtxt = written_in(name, c1[name], unit)
             c2 = dict(c1)
